@@ -78,7 +78,11 @@ CONSTANTS REQ,      \* request ids (one per client order id)
           QTY,      \* quantities of opens (positive)
           BUNDLE,   \* abstract values for (order kind, time in force)
           STALL,    \* instants the model checker lets a stalled executor jump to
-          LateResponseOK  \* see the header: a late response observed together with the deadline
+          LateResponseOK, \* see the header: a late response observed together with the deadline
+          NoTimeout \* the manager is configured with a maximal request timeout (Duration::MAX or
+                    \* a duration beyond every instant): T is infinite, TimeoutFires is never
+                    \* enabled and every accepted request is answered by the client's own
+                    \* response, however late; a request the client never answers has no due instant
 
 NEVER == -1
 
@@ -127,7 +131,9 @@ Scripts(t) ==
 (***************************************************************************)
 Deadline(r) == req[r].at + T
 RespAt(r)   == req[r].at + req[r].d                     \* meaningful iff d # NEVER
-Due(r)      == IF req[r].d # NEVER /\ RespAt(r) < Deadline(r) THEN RespAt(r) ELSE Deadline(r)
+HasDue(r)   == ~NoTimeout \/ req[r].d # NEVER             \* something is going to happen for r
+Due(r)      == IF req[r].d # NEVER /\ (NoTimeout \/ RespAt(r) < Deadline(r)) THEN RespAt(r) ELSE Deadline(r)
+                                                         \* meaningful iff HasDue(r)
 
 (***************************************************************************)
 (* The event the manager builds.  `k` = "resp" (process_*_response) or     *)
@@ -180,7 +186,7 @@ Accept(r, s) ==
 CanRespond(r) == /\ running /\ r \in pending
                  /\ req[r].d # NEVER
                  /\ now >= RespAt(r)
-                 /\ (RespAt(r) > Deadline(r) => LateResponseOK)
+                 /\ (~NoTimeout /\ RespAt(r) > Deadline(r) => LateResponseOK)
 
 ClientResponds(r) ==
     /\ CanRespond(r)
@@ -190,6 +196,7 @@ ClientResponds(r) ==
 
 \* the timeout elapses and the client's future has not completed earlier
 CanTimeout(r) == /\ running /\ r \in pending
+                 /\ ~NoTimeout
                  /\ now >= Deadline(r)
                  /\ (req[r].d = NEVER \/ RespAt(r) >= Deadline(r))
 
@@ -201,7 +208,7 @@ TimeoutFires(r) ==
 
 \* time passes, but never beyond an instant at which a pending request is due
 CanAdvance(t) == /\ t > now
-                 /\ \A r \in pending : t <= Due(r)
+                 /\ \A r \in pending : HasDue(r) => t <= Due(r)
 
 Advance(t) ==
     /\ CanAdvance(t)
@@ -213,7 +220,7 @@ Advance(t) ==
 Stall(t) ==
     /\ t > now
     /\ now' = t
-    /\ lagged' = lagged \cup {r \in pending : Due(r) < t}
+    /\ lagged' = lagged \cup {r \in pending : HasDue(r) /\ Due(r) < t}
     /\ UNCHANGED <<running, req, pending, out>>
 
 \* ExecutionRequest::Shutdown or the end of the request stream
@@ -231,7 +238,7 @@ Shutdown ==
 (***************************************************************************)
 NextNew == CHOOSE r \in REQ : ~Accepted(r) /\ \A q \in REQ : ~Accepted(q) => r <= q
 
-Targets == {Due(r) : r \in pending}
+Targets == {Due(r) : r \in {p \in pending : HasDue(p)}}
            \cup {t \in ACCEPT : running /\ \E r \in REQ : ~Accepted(r)}
 
 AcceptAny  == \E r \in REQ : /\ ~Accepted(r) /\ r = NextNew
@@ -269,7 +276,7 @@ AtMostOne == Cardinality({out[i].id : i \in 1..Len(out)}) = Len(out)
 ExactlyOnce == /\ \A r \in REQ : r \in pending => Accepted(r) /\ ~Answered(r)
                /\ \A r \in REQ : Answered(r) => Accepted(r)
                /\ running => \A r \in REQ : Accepted(r) => (r \in pending \/ Answered(r))
-               /\ \A r \in pending \ lagged : now <= Due(r)
+               /\ \A r \in pending \ lagged : HasDue(r) => now <= Due(r)
 
 \* the response iff it completed before the deadline, the timeout failure iff after; either at
 \* equality (and, if LateResponseOK, for a late response passed together with its deadline by a
@@ -279,9 +286,10 @@ Kind == \A i \in 1..Len(out) :
           LET e == out[i]
               s == req[e.id]
           IN  /\ e.k = "resp"    => /\ s.d # NEVER
-                                    /\ (s.d <= T \/ (LateResponseOK /\ e.id \in lagged))
+                                    /\ (NoTimeout \/ s.d <= T \/ (LateResponseOK /\ e.id \in lagged))
                                     /\ AtOK(e, s.at + s.d)
-              /\ e.k = "timeout" => /\ (s.d = NEVER \/ s.d >= T)
+              /\ e.k = "timeout" => /\ ~NoTimeout
+                                    /\ (s.d = NEVER \/ s.d >= T)
                                     /\ AtOK(e, s.at + T)
 
 \* right exchange, instrument, order id; opens carry the request's order fields; the state is the
@@ -312,6 +320,6 @@ Stable == [][StableStep]_vars
 
 \* never neither (liveness half): every request in flight is eventually answered, unless the
 \* manager is shut down first
-Answers == \A r \in REQ : (r \in pending) ~> (Answered(r) \/ ~running)
+Answers == \A r \in REQ : (r \in pending /\ HasDue(r)) ~> (Answered(r) \/ ~running)
 
 =============================================================================
